@@ -123,7 +123,12 @@ def run(rep: core.Report):
     problems = ty.run()
     if not problems and ty.n_typed < 2:
         raise AnalysisError(f"R02f: only {ty.n_typed} contractions typed in Primitive._get_smallest_vectors")
-    got = ty.env.get("svecs")
+    # by role: the vectors are the first element of what the function returns
+    rets_ = [r.value for r in ast.walk(sv) if isinstance(r, ast.Return) and r.value is not None]
+    first_ = rets_[-1].elts[0] if rets_ and isinstance(rets_[-1], ast.Tuple) and rets_[-1].elts else (rets_[-1] if rets_ else None)
+    if not isinstance(first_, ast.Name):
+        raise AnalysisError("R02f: Primitive._get_smallest_vectors does not return its vectors through a local")
+    got = ty.env.get(first_.id)
     rep.instance("R02f", CELLS, "Primitive._get_smallest_vectors", f"svecs : {frames.show(got)}", not problems and got is not None and frames.same_axis(got[-1], LAT("p", "+")) is not False,
                  (problems[0].message if problems else f"svecs are typed {frames.show(got)}") + ": the shortest vectors are not expressed in primitive-cell coordinates, so the phase 2 pi q.s is wrong whenever inv(primitive matrix) is not symmetric (non-uniform supercells of centred lattices, non-symmetric supercell matrices)", line=(problems[0].node.lineno if problems else sv.lineno))
     # ---- R02e ------------------------------------------------------------
